@@ -206,6 +206,24 @@ CHECKS = {
               "HDF5, Keras deserialisation and eager execution are trusted runtime. Layers that do not build under the pinned Keras 3 "
               "(QBatchNormalization, folded, recurrent wrappers) are not generated."),
         technique="Coq obligations over translator-generated tables + differential round-trip runs (translation validation)"),
+    "C14": dict(
+        category="proof",
+        text=("Coq theorems (Properties/C14.v), generic in the tensor type, the layer functions, the number of layers and weights: after the "
+              "export loop every weight is its quantizer applied once to the previous weight; for idempotent (data-independent) quantizers the "
+              "export keeps every prediction and a second export changes nothing (instantiated for any chain of fixed-point layers through the "
+              "C02 idempotence theorem); the power-of-two tuple (sign, round(log2|w|)) rebuilds every output of the C03 quantizer models; the "
+              "auto_po2 tuple satisfies scale * integer = weight, the integer is the quantizer code and lies in the bit range; the batch-norm "
+              "fusing terms satisfy BN(y + bias) = inv * y + fused_bias for every y (also with a quantized inverse). Correspondence: "
+              "model_save_quantized_weights runs on random models over the runnable weight-bearing layers and 18 + 5 quantizer options; layer "
+              "weights are compared bitwise with quantizer(previous weights), every exported tuple element is judged by Coq checkers on the "
+              "float32 bits, predictions and a second export are compared bitwise; add_bn_fusing_weights is compared with the float32 "
+              "evaluation-order model on stand-in layers; the freezing utility is run on functional models. Two genuine defects repaired."),
+        design_ref="DESIGN.md section 5 C14, section 8, section 10",
+        note=(TB_COMMON + "find_bn_fusing_layer_pair is replaced by a harness function (needs the Keras-2 graph: known finding); "
+              "QBatchNormalization does not build under the pinned Keras 3, so the fusing terms are checked on stand-in layers; rsqrt is an "
+              "oracle; HDF5 writing (filename=) is not exercised; idempotence of po2 / binary / ternary instances is checked on the "
+              "implementation (their exponent-level idempotence theorem is C03's)."),
+        technique="Coq proof (generic export-loop theorems, tuple algebra over Q and exact rationals) + differential correspondence with Coq-side tuple checkers"),
     "C15": dict(
         category="proof",
         text=("Coq theorems (Properties/C15.v, over Q, for every kernel, bias, statistic -- gamma = 0 and tiny variances included -- and every "
